@@ -595,6 +595,11 @@ func (h *vipHarness) settle() []string {
 	for {
 		why = h.unsettled()
 		if len(why) == 0 {
+			// the table/stream marks are read before the goroutine stacks: something that moved on between the two readings
+			// (a handler that returned right after the marks were read) shows in the marks of a second evaluation
+			why = h.unsettled()
+		}
+		if len(why) == 0 {
 			return why
 		}
 		if time.Now().After(deadline) {
